@@ -179,6 +179,18 @@ def run(ctx):
     r3(ctx, prog, fit, jac)
     r4_r5(ctx, prog, fit, wrapper)
     r6(ctx, prog, fit, wrapper, dfun_call)
+    from .. import precision
+    precision.rule(
+        ctx, prog, "C04-R7",
+        ["fitting.elliptical_gaussian", "fitting.jacobian",
+         "fitting.emp_jacobian", "fitting.lmfit_jacobian", "fitting.hessian",
+         "fitting.emp_hessian", "fitting.Cmatrix", "fitting.Bmatrix",
+         "fitting.covar_errors", "fitting.do_lmfit", "fitting.ntwodgaussian_lmfit",
+         "fitting.errors", "fitting.new_errors"],
+        "precision: model, derivatives, covariance and errors are computed "
+        "in double precision (no float32 / float16 cast): the inverse of an "
+        "ill-conditioned Fisher matrix is meaningless in single precision",
+        "a dtype narrower than float64 is used", floor=8)
 
 
 # --------------------------------------------------------------------------
